@@ -15,6 +15,28 @@ CHECKS = {
     note="Schedules are explored at statement granularity (yield points), not bytecode granularity; solo oracle computed in a "
          "throw-away process; TLC, PLY, CPython trusted.",
     design="DESIGN.md 3.1, 4 (C15)", technique=TECH + " (Lifecycle.tla, TraceLifecycle.tla)"),
+ "C14": dict(
+    text="TLC model-checks Repeatable / NoAliasing / AppendOnly of spec/Lifecycle.tla over every call history (construct, run(args)*) "
+         "of 1-3 objects with every subset of per-run accumulators left dirty, and must refute them on the configurations in which "
+         "parse_data does not re-initialise an accumulator. All 64 three-call histories over four run() argument sets are replayed "
+         "on the real library over the regression corpus (harvested from the working tree's tests) and 12 state-leaving scripts: "
+         "each run must equal the fresh-object run (computed in another process), results already returned must not change, "
+         "arguments and the working directory must be untouched; the same inputs are parsed in fresh interpreters under several "
+         "PYTHONHASHSEEDs (json_dump strings compared); two-object histories are trace-validated against TraceLifecycle.tla.",
+    note="Inputs are the corpus plus hand-listed state-leaving scripts, not all DDL; fresh-object oracle from a throw-away process; "
+         "TLC, PLY, CPython trusted.",
+    design="DESIGN.md 3.1, 4 (C14)", technique=TECH + " (Lifecycle.tla, TraceLifecycle.tla)"),
+ "C20": dict(
+    text="TLC model-checks TablesDeclared of spec/ParseTables.tla (a transcription of ply.yacc.yacc's read-or-regenerate logic "
+         "with the interpreter's module cache) over every sequence of <=3-4 cache faults {delete, stale signature, older table "
+         "version}, process restarts and parser constructions, and must refute it for the optimize-mode and cannot-regenerate "
+         "variants. Exported behaviours are replayed on a scratch copy of the working tree's package: faults are applied to its "
+         "parsetab.py, parsers are constructed in real fresh interpreters, and each must reproduce the valid-cache results on "
+         "corpus inputs. The Build step also compares a signature-matching table file with a fresh in-memory generation "
+         "(actions, gotos, productions).",
+    note="PLY's generation algorithm is trusted (cached vs fresh output compared); stale cache is a crafted file (older signature, "
+         "tables lacking ALTER/INDEX/SEQUENCE actions); quick tier replays a stratified sample of behaviours.",
+    design="DESIGN.md 3.1, 4 (C20)", technique=TECH + " (ParseTables.tla)"),
 }
 NOT_YET = {}
 def main():
